@@ -66,7 +66,7 @@ jobs:
         type: string
   pull_request:
 env:
-  «WENV»: v
+  «wenv»: v
 jobs:
   «prep»:
     runs-on: ubuntu-latest
@@ -85,7 +85,7 @@ jobs:
       «db»:
         image: pg
     env:
-      «JENV»: v
+      «jenv»: v
     steps:
       - id: «s1»
         uses: ./act
@@ -99,9 +99,9 @@ jobs:
           «fetch-depth»: 1
       - run: echo ${{ «steps».«s1».«outputs».«aout» }} ${{ «steps».«s2».«outputs».«ref» }} ${{ «steps»['«s1»'].«conclusion» }}
         env:
-          «SENV»: ${{ «matrix».«os» }} ${{ «matrix».«extra» }} ${{ «matrix».«ver».«maj» }} ${{ «matrix»['«os»'] }}
-      - run: echo ${{ «env».«WENV» }} ${{ «env».«JENV» }} ${{ «inputs».«din» }} ${{ «github».«event».«inputs».«din» }} ${{ «job».«services».«db».«id» }}
-      - run: echo ${{ «github».«sha» }} ${{ «github»['«ref_name»'] }} ${{ «runner».«os» }} ${{ «vars».«SOME_VAR» }} ${{ «strategy».«fail-fast» }}
+          «senv»: ${{ «matrix».«os» }} ${{ «matrix».«extra» }} ${{ «matrix».«ver».«maj» }} ${{ «matrix»['«os»'] }}
+      - run: echo ${{ «env».«wenv» }} ${{ «env».«jenv» }} ${{ «inputs».«din» }} ${{ «github».«event».«inputs».«din» }} ${{ «job».«services».«db».«id» }}
+      - run: echo ${{ «github».«sha» }} ${{ «github»['«ref_name»'] }} ${{ «runner».«os» }} ${{ «vars».«some_var» }} ${{ «strategy».«fail-fast» }}
       - run: echo ${{ «contains»(«github».«ref», 'x') }} ${{ «format»('{0}', «toJSON»(«github».«event»)) }} ${{ «fromJSON»('{"«jk»":1}').«jk» }} ${{ «startsWith»('a', 'b') && «hashFiles»('x') }}
         if: ${{ «always»() && «success»() }}
   «caller»:
@@ -110,7 +110,7 @@ jobs:
     with:
       «cin»: ${{ «needs».«prep».«outputs».«pout» }}
     secrets:
-      «csec»: ${{ «secrets».«TOKEN» }}
+      «csec»: ${{ «secrets».«token» }}
   «last»:
     needs: [«prep», «caller»]
     runs-on: ubuntu-latest
